@@ -796,6 +796,13 @@ impl<'s> Semantics<'s> {
                 offset = temp.into();
             }
 
+            // for a register base or an immediate offset the bit index is taken
+            // modulo the operand width
+            let offset = Expr::and(
+                offset,
+                expr_const(base.bits() as u64 - 1, base.bits()),
+            )?;
+
             let temp = self.temp(0, base.bits());
             block.assign(temp.clone(), Expr::shr(base, offset)?);
             block.assign(scalar("CF", 1), Expr::trun(1, temp.into())?);
@@ -839,6 +846,13 @@ impl<'s> Semantics<'s> {
                 block.assign(temp.clone(), Expr::zext(base.bits(), offset.clone())?);
                 offset = temp.into();
             }
+
+            // for a register base or an immediate offset the bit index is taken
+            // modulo the operand width
+            let offset = Expr::and(
+                offset,
+                expr_const(base.bits() as u64 - 1, base.bits()),
+            )?;
 
             // this handles the assign to CF
             let temp = self.temp(1, base.bits());
@@ -888,6 +902,13 @@ impl<'s> Semantics<'s> {
                 block.assign(temp.clone(), Expr::zext(base.bits(), offset.clone())?);
                 offset = temp.into();
             }
+
+            // for a register base or an immediate offset the bit index is taken
+            // modulo the operand width
+            let offset = Expr::and(
+                offset,
+                expr_const(base.bits() as u64 - 1, base.bits()),
+            )?;
 
             // this handles the assign to CF
             let temp = self.temp(1, base.bits());
@@ -939,6 +960,13 @@ impl<'s> Semantics<'s> {
                 block.assign(temp.clone(), Expr::zext(base.bits(), offset.clone())?);
                 offset = temp.into();
             }
+
+            // for a register base or an immediate offset the bit index is taken
+            // modulo the operand width
+            let offset = Expr::and(
+                offset,
+                expr_const(base.bits() as u64 - 1, base.bits()),
+            )?;
 
             // this handles the assign to CF
             let temp = self.temp(1, base.bits());
